@@ -116,6 +116,9 @@ class BlockLoop(LoopSpec):
         z, y, x = c.int("z", inp=True), c.int("y", inp=True), c.int("x", inp=True)
         c.assume(And(z >= 0, z < gz, y >= 0, y < gy, x >= 0, x < gx))
         fr.locals["z"], fr.locals["y"], fr.locals["x"] = z, y, x
+        c.trust("encoder block loop: verified for an ARBITRARY iteration (arbitrary block, arbitrary buffer of length 4*k >= 8*G and arbitrary "
+                "table map satisfying the invariant); the induction from this step and the frame to 'every block decodable at exit' is argued in "
+                "contracts/c02_encoder.py, not mechanised; np.ndindex enumerates each block once; stated bound: buffer below 2^26 bytes")
         L4 = c.int("len_buf_div_4", inp=True)
         L = 4 * L4
         c.assume(L >= 8 * G)
